@@ -166,8 +166,6 @@ class Fn:
                 info = self.tr.fninfo.get(fname)
                 if info is None:
                     raise Unsupported(f"recursive call of {fname}")
-                if info["uninit"]:
-                    raise Unsupported(f"call of {fname}, which has uninitialised locals")
                 if info["outs"]:
                     return self.call_with_outs(n, fname, info)
             args = [self.expr(a) for a in n["inner"][1:]]
@@ -179,7 +177,7 @@ class Fn:
                 conds.append(f"({a} != {lit(0, 64)})")
                 return f"(BitVec.setWidth 32 (BitVec.clz {a}))", to, conds
             self.tr.require(fname)
-            argstr = " ".join(a for (a, _, _) in args)
+            argstr = " ".join([a for (a, _, _) in args] + self.callee_uninit(fname))
             conds.append(f"({self.tr.lean_name(fname)}_defined {argstr})")
             return f"({self.tr.lean_name(fname)} {argstr})", to, conds
         if k == "ArraySubscriptExpr":
@@ -288,7 +286,7 @@ class Fn:
                 raise Unsupported("out argument type")
             terms.append(nm)
             outs.append((nm, tl, pname))
-        argstr = " ".join(terms)
+        argstr = " ".join(terms + self.callee_uninit(fname))
         ln = self.tr.lean_name(fname)
         conds.append(f"({ln}_defined {argstr})")
         for nm, tl, pname in outs:
@@ -296,6 +294,17 @@ class Fn:
         if info["ret"] is None:
             return "()", None, conds
         return f"({ln} {argstr})", info["ret"], conds
+
+    def callee_uninit(self, fname):
+        """the callee's uninitialised locals become uninitialised values of this function too (one per callee local;
+        every theorem quantifies over them)"""
+        info = self.tr.fninfo.get(fname) or {}
+        out = []
+        for u, t in info.get("uninit_t", []):
+            nm = f"{self.tr.lean_name(fname)}_{u}"
+            self.uninit[nm] = t
+            out.append("u_" + nm)
+        return out
 
     def take_pending(self):
         p, self.pending = self.pending, []
@@ -373,6 +382,14 @@ class Fn:
         k = s["kind"]
         if k == "__yield":
             return s["term"], "true"
+        if k == "__loop_end":
+            return self.block(rest)
+        if k == "BreakStmt":
+            # leave the innermost loop: skip everything up to and including its end marker
+            for i_, x in enumerate(rest):
+                if x.get("kind") == "__loop_end":
+                    return self.block(rest[i_ + 1:])
+            raise Unsupported("break outside a loop")
         if k == "CompoundStmt":
             return self.block(list(s.get("inner", [])) + rest)
         if k == "NullStmt":
@@ -468,7 +485,7 @@ class Fn:
             if n is None:
                 raise Unsupported(f"loop in {self.name} without --unroll bound")
             loop = {"kind": "__loop", "cond": inner[2], "inc": inner[3], "body": inner[4], "n": n}
-            return self.block([inner[0], loop] + rest)
+            return self.block([inner[0], loop, {"kind": "__loop_end"}] + rest)
         if k == "WhileStmt":
             inner = s["inner"]
             if len(inner) != 2:
@@ -477,7 +494,7 @@ class Fn:
             if n is None:
                 raise Unsupported(f"loop in {self.name} without --unroll bound")
             loop = {"kind": "__loop", "cond": inner[0], "inc": {"kind": "NullStmt"}, "body": inner[1], "n": n}
-            return self.block([loop] + rest)
+            return self.block([loop, {"kind": "__loop_end"}] + rest)
         if k == "__loop":
             if s["n"] == 0:
                 w = self.outs[self.mode][0] if self.mode is not None else self.ret[0]
@@ -560,12 +577,20 @@ class Fn:
         """`if (c) A [else B]` where A (and B) fall through: the variables assigned in A or B take, after the
         statement, the value the taken branch leaves in them"""
         if contains_return(then) or (els is not None and contains_return(els)):
-            raise Unsupported("if-branch that returns on some paths only")
+            # a branch that returns (or breaks) on some paths only: each branch continues with its own copy of the
+            # rest of the function
+            tv, td = self.block([then] + rest)
+            ev, ed = self.block(([els] if els is not None else []) + rest)
+            return (f"if {cond} then\n{indent(tv)}\nelse\n{ev}",
+                    f"{conj(cc)} &&\n(if {cond} then\n{indent(td)}\nelse\n{ed})")
         vs = {}
         assigned(self, then, vs, set())
         if els is not None:
             assigned(self, els, vs, set())
         names = sorted(vs)
+        if len(rest) == 1 and rest[0].get("kind") == "__yield":
+            # nothing follows but the value of one variable: only that variable needs a merged binding
+            names = [nm for nm in names if nm == rest[0]["term"]]
         _, td = self.block([then, {"kind": "__yield", "term": "()"}])
         ed = "true"
         if els is not None:
@@ -650,7 +675,7 @@ class Fn:
         self.tr.fninfo[self.name] = {
             "params": [(p, t, p.startswith("o_")) for p, t in self.params],
             "outs": [p[2:] for p, t in self.params if p.startswith("o_")],
-            "ret": self.ret, "uninit": list(self.uninit)}
+            "ret": self.ret, "uninit": list(self.uninit), "uninit_t": list(self.uninit.items())}
         for an, (ew, vals) in self.tables.items():
             # index type is not known here: emit for 32-bit index (int promotions)
             chain = ""
@@ -693,7 +718,7 @@ def const_eval_enum(tr, e):
 
 def contains_return(s):
     if isinstance(s, dict):
-        if s.get("kind") == "ReturnStmt":
+        if s.get("kind") in ("ReturnStmt", "BreakStmt"):
             return True
         return any(contains_return(c) for c in s.get("inner", []))
     return False
